@@ -1,4 +1,5 @@
 import Iec.Lemmas.Srv104
+import Iec.Lemmas.MsgQueue
 /-
 C06 — Server event buffer: no loss, kept until acknowledged, resent after reconnect.
 
@@ -11,15 +12,28 @@ equal-sized ASDUs; delivered bytes equal enqueued bytes.
 
 Model: `Iec.Queues.MsgQueue`, the ring of cs104_slave.c:112-581 at the level of byte
 offsets (after the repair of the stale `lastInBufferEntry` and of the reset on connection
-close, both found by this check).  **Partial**: the theorems below cover the byte and state
-discipline of single entries (what is stored is what was enqueued, what is handed out is
-what was stored, state changes never touch ids or octets, the close-reset only turns
-sent-unconfirmed entries of the closing connection into waiting).  The geometry claims
-(displacement only of the oldest, N-retention) and the walk order are NOT proved yet; they
-are tied by the correspondence run, which compares the real ring (pointers, every entry's
-id/state/size in FIFO order) with the model after every operation, with queue sizes 1..40
-so that wrap-around and eviction happen constantly, and by the model-free duplicate/order
-oracle of the harness.
+close, both found by this check).
+
+Proved (Lemmas/MsgQueue.lean, layout invariant `MqInv`: the queued entries are `up ++ low`, `up` back
+to back from `first` to `lastInBuffer`, `low` back to back from offset 0 below `first`):
+
+* `ring_is_a_list`            the FIFO walk of the C code terminates within `entryCounter` steps and
+                              visits exactly the queued entries, oldest first
+* `enqueue_displaces_only_oldest`  for EVERY ring state, entry size and wrap position: after an enqueue
+                              the queue is `(old queue).drop k ++ [new entry]` - the new entry is stored with
+                              the next id, waiting, octet for octet; the only entries lost are the `k`
+                              oldest ones; everything else keeps id, state and octets (includes both
+                              eviction loops and the "remove everything up to the buffer end" step)
+* `next_waiting_is_oldest_waiting` getNextWaitingASDU terminates and hands out the OLDEST waiting entry with
+                              exactly its stored id and octets, marks it sent-unconfirmed, touches nothing else
+* `state_change_is_local`     a state change at one offset changes that entry's state and nothing else
+
+plus the entry-level laws below.  NOT proved: the ring laws of markAsduAsConfirmed / removeFirstEntry and
+of the reset loop (setWaitingForTransmissionWhenNotConfirmed), N-retention, and the coupling with the
+k-buffer; those rest on the correspondence run (real ring - pointers, every entry's id / state / size in
+FIFO order - compared with the model after every operation, queue sizes 1..40) and the duplicate / order
+oracle of the harness.  The invariant is established by `MsgQueue.create` and re-established by the three
+operations above; its preservation by the unproved operations is tied differentially.
 -/
 namespace Iec.Props.C06
 open Iec.Queues
@@ -119,5 +133,59 @@ theorem setEntryWaiting_data (q : MsgQueue) (o id o' : Nat) :
       · rfl
     · rfl
   · rfl
+
+/-- **C06, the ring is a list.** Under the layout invariant the C walk from `firstEntry` (at most `entryCounter`
+steps - so every traversal terminates) yields exactly the queued entries, oldest first. -/
+theorem ring_is_a_list (q : MsgQueue) (up low : List MEntry) (h : MqInv q up low) : q.toList = MqInv.abs up low :=
+  toList_eq q up low h
+
+/-- **C06, the only permitted loss is displacement of the oldest entries.** For every ring state satisfying the
+invariant (any fill level, any wrap position), every ASDU of at most 250 octets and every ring of at least one
+entry: the queue after the enqueue is the old queue without its `k` oldest entries, followed by the new entry
+(next id, waiting, the ASDU's octets). -/
+theorem enqueue_displaces_only_oldest (q : MsgQueue) (up low : List MEntry) (h : MqInv q up low) (d : List Nat)
+    (hd : d.length ≤ 250) (hsize : 266 ≤ q.size) :
+    ∃ up' low' k, MqInv (q.enqueue d) up' low' ∧
+      MqInv.abs up' low' = (MqInv.abs up low).drop k ++ [⟨q.nextId, 1, d⟩] :=
+  mq_enqueue_refines q up low h d hd hsize
+
+/-- the same as a statement about the C walk: what `toList` shows after the enqueue -/
+theorem enqueue_toList (q : MsgQueue) (up low : List MEntry) (h : MqInv q up low) (d : List Nat)
+    (hd : d.length ≤ 250) (hsize : 266 ≤ q.size) :
+    ∃ k, (q.enqueue d).toList = q.toList.drop k ++ [⟨q.nextId, 1, d⟩] := by
+  obtain ⟨up', low', k, hinv, habs⟩ := mq_enqueue_refines q up low h d hd hsize
+  exact ⟨k, by rw [toList_eq _ up' low' hinv, toList_eq q up low h, habs]; rfl⟩
+
+/-- **C06, delivered bytes equal enqueued bytes; oldest waiting first.** -/
+theorem next_waiting_is_oldest_waiting (q : MsgQueue) (up low : List MEntry) (h : MqInv q up low) :
+    match (up ++ low).find? (fun x => x.2.st == 1) with
+    | none => q.getNextWaiting = (q, none)
+    | some x => q.getNextWaiting = (q.setState x.1 2, some (x.2.id, x.1, x.2.data)) ∧
+        MqInv (q.setState x.1 2) (up.map (updSt x.1 2)) (low.map (updSt x.1 2)) :=
+  getNextWaiting_refines q up low h
+
+/-- a state change touches one entry's state and nothing else (ids, octets, order, every other entry) -/
+theorem state_change_is_local (q : MsgQueue) (up low : List MEntry) (h : MqInv q up low) (o st : Nat) :
+    MqInv (q.setState o st) (up.map (updSt o st)) (low.map (updSt o st)) ∧
+    (MqInv.abs (up.map (updSt o st)) (low.map (updSt o st))).map (fun e => (e.id, e.data)) =
+      (MqInv.abs up low).map (fun e => (e.id, e.data)) := by
+  refine ⟨setState_inv q up low h o st, ?_⟩
+  simp only [MqInv.abs, ← List.map_append, List.map_map]
+  apply List.map_congr_left
+  intro x _
+  simp only [Function.comp, updSt]
+  split <;> rfl
+
+/-- the invariant holds for a freshly created queue -/
+theorem create_inv (n : Nat) : MqInv (MsgQueue.create n) [] [] :=
+  { count := rfl
+    data := by simp
+    lowup := fun _ => rfl
+    upper := by intro a b h; cases h
+    lastU := by simp
+    lower := by intro a b h; cases h }
+
+/-- non-vacuity: two enqueues into a fresh one-entry ring are kept in order with consecutive ids -/
+example : (((MsgQueue.create 1).enqueue [1, 1, 1]).enqueue [2, 2]).toList.map (·.id) = [1, 2] := by decide
 
 end Iec.Props.C06
